@@ -19,7 +19,8 @@ ReadPlain  == {"all"}
 BodiesTwo  == {<<>>, <<"x", "y", "z">>}
 NamesOne   == {<<"a">>}
 TypesDF    == {"dir", "file"}
-ModesFive  == {0, 420, 4095, 512, 3584}
+ModesFour  == {0, 420, 4095, 3584}
+ReadSim    == {"all", "alleof", "oneeof"}
 \* every 12-bit mode class: setuid / setgid / sticky alone and combined, with and without permission bits
 \* (0 = unset; 01000 02000 ... 07000 have NO permission bit; 0001, 0644, 0777)
 ModesSpecial == {hi * 512 + lo : hi \in 0..7, lo \in {0, 1, 420, 511}}
